@@ -106,6 +106,8 @@ def check(run):
                 if kind != 'this':
                     run.violation('R15', 'closure-nonowning', '%s: lambda -> %s captures %s' % (q.top_function(fx, fn).norm, dest, nm), fn.loc(n),
                                   'a closure that runs at a later event captures %s (%s %s) without owning it' % (nm, kind, ty_))
+            if dest == 'timer' and q.completion_targets(fn, n):
+                continue        # a lambda whose whole body calls one member function: judged as a bound member completion above
             if dest in ('post', 'timer') and any(c.get('this') for c in n.get('caps', [])):
                 lam = fx.by_usr(u)
                 uses = bool(lam) and any(x['k'] == 'this' or (x['k'] == 'member' and q.is_this(q.access_root(x))) for x in lam[0].all_nodes())
@@ -198,14 +200,31 @@ def check(run):
     if not catches:
         run.violation('R4', 'catch-all', S + '::run', rn.loc(), 'run() has no catch-all: an exception from a user handler leaves timers and sockets with dangling work')
     for cnode in catches:
-        loops = [x for x in walk(cnode) if x['k'] == 'rangefor']
-        live = [l for l in loops if is_node(l.get('range')) and any(q.field_name(y) for y in walk(l['range']))]
-        run.check(bool(loops) and not live, 'R4', 'catch-all-copies', S + '::run', rn.loc(cnode), 'the catch-all iterates a live member container while cancelling mutates it', 'iterates local copies only')
+        # each registry is cancelled from a COPY: a local copy iterated in the handler itself, or the container passed BY VALUE
+        # to a helper that iterates its parameter (cancelling mutates the live containers)
+        loops = [(rn, x) for x in walk(cnode) if x['k'] == 'rangefor']
+        helper_cover = {}
+        for c in [x for x in walk(cnode) if x['k'] == 'call']:
+            g_ = q.is_helper_call(rn, c)
+            if g_ is None:
+                continue
+            for prm, a in zip(g_.params, c.get('args', [])):
+                fld = next((q.field_name(y) for y in walk(a) if y['k'] == 'member' and q.field_name(y)), None)
+                if not fld:
+                    continue
+                byval = not g_.ty(prm['t']).rstrip().endswith('&')
+                inner = [x for x in g_.all_nodes() if x['k'] == 'rangefor' and any(y['k'] == 'ref' and y.get('did') == prm.get('did') for y in walk(x.get('range') or {}))
+                         and any(z['k'] == 'call' and (z.get('callee') or '').split('::')[-1] == 'cancel' for z in walk(x['body']))]
+                if inner:
+                    helper_cover[fld.split('::')[-1]] = byval
+        live = [l for f_, l in loops if is_node(l.get('range')) and any(q.field_name(y) for y in walk(l['range']))]
+        live += [k for k, byval in helper_cover.items() if not byval]
+        run.check((bool(loops) or bool(helper_cover)) and not live, 'R4', 'catch-all-copies', S + '::run', rn.loc(cnode), 'the catch-all iterates a live member container while cancelling mutates it', 'iterates local copies only')
         thr = [x for x in walk(cnode) if x['k'] == 'throw' and x.get('e') is None]
         stop = [x for x in walk(cnode) if x['k'] == 'bin' and x['op'] == '=' and q.render(rn, x['lhs']) == 'm_stopped' and q.strip_casts(x['rhs']).get('v') is True]
         run.check(bool(thr) and bool(stop), 'R4', 'catch-all-rethrows', S + '::run', rn.loc(cnode), 'the catch-all does not set m_stopped and re-throw', 'sets m_stopped and re-throws')
         cancels = [x for x in walk(cnode) if x['k'] == 'call' and (x.get('callee') or '').split('::')[-1] == 'cancel']
-        run.check(len(cancels) >= 3, 'R4', 'catch-all-cancels', S + '::run', rn.loc(cnode), 'the catch-all does not cancel timers, listen sockets and UDP sockets', 'cancels all three kinds')
+        run.check(len(cancels) + len(helper_cover) >= 3, 'R4', 'catch-all-cancels', S + '::run', rn.loc(cnode), 'the catch-all does not cancel timers, listen sockets and UDP sockets', 'cancels all three kinds')
     remove_timer_rule(run)
     run.clause('R15 element references / iterators into member containers are not used after the call that invalidates them')
     engines.dangling_element_refs(run, [f for f in fx.repo_functions() if f.file.startswith(simlib.REPO_PREFIX)])
@@ -284,7 +303,7 @@ def remove_timer_rule(run, rule='R4'):
                    % ([q.callee_name(d) for d in defs if is_node(d) and d['k'] == 'call'] or 'an unrecognised search'))
         else:
             g = q.guards_at(rm, c)
-            if not any(q.cmp_atom(a) and q.cmp_atom(a)[0] == '==' and not p for a, p in g):
+            if not any(q.cmp_atom(a) and ((q.cmp_atom(a)[0] == '==' and not p) or (q.cmp_atom(a)[0] == '!=' and p)) for a, p in g):
                 ok = False
                 why = 'the erase is not dominated by a found test'
     run.check(ok, rule, 'remove-searches-equal-range', S + '::remove_timer', rm.loc(), why, 'erases the element located by std::find over the equal-expiry range, after a found test')
